@@ -65,6 +65,22 @@ func FuncKey(fn *ssa.Function) string {
 	return pkg + "." + name
 }
 
+// addAnon registers the function literals inside fn ("<pkg>.<outer>$<n>") so that a closure can carry its own contract
+// (captured variables are treated like pointer parameters).
+func addAnon(p *Program, fn *ssa.Function) {
+	for _, af := range fn.AnonFuncs {
+		pkg := ""
+		if fn.Pkg != nil {
+			pkg = fn.Pkg.Pkg.Path()
+		}
+		key := pkg + "." + af.Name()
+		if _, dup := p.Funcs[key]; !dup {
+			p.Funcs[key] = af
+		}
+		addAnon(p, af)
+	}
+}
+
 func Load(dir string, patterns []string, tags string, extraContracts []string) (*Program, error) {
 	cfg := &packages.Config{Mode: packages.LoadAllSyntax, Dir: dir}
 	if tags != "" {
@@ -89,11 +105,13 @@ func Load(dir string, patterns []string, tags string, extraContracts []string) (
 			switch m := m.(type) {
 			case *ssa.Function:
 				p.Funcs[FuncKey(m)] = m
+				addAnon(p, m)
 			case *ssa.Type:
 				if n, ok := m.Type().(*types.Named); ok {
 					for i := 0; i < n.NumMethods(); i++ {
 						if f := prog.FuncValue(n.Method(i)); f != nil {
 							p.Funcs[FuncKey(f)] = f
+							addAnon(p, f)
 						}
 					}
 				}
